@@ -46,7 +46,8 @@ static inline int c_next_range_post(const IT* it, _Bool ret, uint64_t s, uint64_
   }
   if (!(s < e && e <= it->_end)) return 12;                                        /* R2 non-empty, inside the window */
   if (s < g_idx0) return 13;                                                       /* R3 progress */
-  if (g_bit >= s && g_bit < e && spec_bit(g_vec, g_bit)) return 14;                /* R4 every granule of the range is free */
+  if (!spec_all_bits(g_vec, VERIF_W, s, e, 0)) return 14;                            /* R4 every granule of the range is free (word masks: usable by callers without a quantifier) */
+  if (g_bit >= s && g_bit < e && spec_bit(g_vec, g_bit)) return 15;                /*    (the same, bit by bit for an arbitrary position) */
   return 0;
 }
 #define CONTRACT_BitVectorRangeIterator_u64_0_next_range \
